@@ -102,7 +102,7 @@ def gen_mlp(tier, rng):
         c, e = bfs("mlp", dict(MLP_STATIC, noisy=True), cfg3, [4, 6], mlp_moves_explicit((2, 4)), lambda d: d["widths"], limit=20000)
         cases += c; ex &= e
     # seeded walks at the default bounds
-    nw, ln = (6, 40) if tier == "quick" else (40, 300)
+    nw, ln = (6, 40) if tier == "quick" else (20, 150)
     for w in range(nw):
         static = {"num_inputs": rng.choice([3, 8]), "num_outputs": rng.choice([1, 4]), "layer_norm": rng.random() < 0.5,
                   "output_layernorm": rng.random() < 0.3, "noisy": rng.random() < 0.25}
@@ -168,7 +168,7 @@ def gen_scalar(name, tier, rng):
     cases += c; ex &= e
     c, e = bfs(name, sp["static"], sp["cfg_drawn"], sp["init_drawn"], moves_drawn, to_init, limit=1500, tag="bfs-drawn")
     cases += c; ex &= e
-    nw, ln = (3, 40) if tier == "quick" else (20, 300)
+    nw, ln = (3, 40) if tier == "quick" else ((6, 100) if name == "resnet" else (10, 150))
     for w in range(nw):
         steps = [S(rng.choice(sp["layer"] + sp["node"] + sp["node"]), (rng.randrange(1000),)) for _ in range(ln)]
         static = dict(sp["static"])
